@@ -64,6 +64,9 @@ func zooValues() []valSpec {
 		{Name: "0/0", Expr: "(0/0)"},
 		{Name: "1/0", Expr: "(1/0)"},
 		{Name: "1e999999", Expr: "1e999999"},
+		{Name: "tiny-exponent", Expr: "1e-30000000"},
+		{Name: "huge-exponent", Expr: "1e99999999999"},
+		{Name: "neg-tiny-exponent", Expr: "(-1e-300000000)"},
 		{Name: "str-empty", Data: ""},
 		{Name: "str-a", Data: "a"},
 		{Name: "str-1", Data: "1"},
